@@ -85,8 +85,9 @@ def prefixesOf (root : PPath) (comps : List Name) : List PPath :=
 def runUwtWrite (v : Validator) (root : PPath) (nodes : List (PPath × Node)) (entries : List Entry)
     (queries : List PPath) : String :=
   let fs : FS := nodes.foldl (fun fs pn => fs.set pn.1 (some pn.2)) (fun _ => none)
-  let cand := dedup (nodes.map (·.1) ++ queries ++ entries.flatMap (fun e => prefixesOf root (splitOn 47 e.path)))
-  let (st, err) := uwtWritePhaseG Gen.PathSafe.uwtFreshCache (isEmptyIn cand) (v.run foldAscii) root entries
+  let cand := dedup (nodes.map (·.1) ++ queries ++ entries.flatMap (fun e => prefixesOf root (splitOn 47 e.path ++ [dotGit])))
+  let (st, err) := uwtPhaseAllG Gen.PathSafe.uwtFreshCache Gen.PathSafe.gitlinkDirTestFollows (isEmptyIn cand)
+    (v.run foldAscii) root entries
     { fs := fs, log := [], safe := [] }
   let status := match err with | none => "ok" | some e => e.toString
   let qs := dedup (queries ++ st.log.map Mut.target)
